@@ -530,6 +530,17 @@ func (u *Unit) localAllocs(nodes ...ast.Node) map[types.Object]bool {
 		}
 		ast.Inspect(n, func(n ast.Node) bool {
 			switch x := n.(type) {
+			case *ast.ValueSpec:
+				// var x []T (nil) is a fine starting point for x = append(x, ...)
+				if len(x.Values) == 0 {
+					for _, id := range x.Names {
+						if obj := info.Defs[id]; obj != nil {
+							if _, isSlice := obj.Type().Underlying().(*types.Slice); isSlice {
+								cand[obj] = true
+							}
+						}
+					}
+				}
 			case *ast.AssignStmt:
 				for i, l := range x.Lhs {
 					id, ok := l.(*ast.Ident)
@@ -590,7 +601,15 @@ func (u *Unit) localAllocs(nodes ...ast.Node) map[types.Object]bool {
 func (u *Unit) modified(nodes ...ast.Node) *modSet {
 	m := &modSet{vars: map[types.Object]bool{}, ghost: map[string]bool{}}
 	info := u.top().info
-	m.local = u.localAllocs(nodes...)
+	// variables that, anywhere in this function, only ever hold memory allocated by it
+	if fr := u.top(); fr.body != nil {
+		if fr.localAllocs == nil {
+			fr.localAllocs = u.localAllocs(fr.body)
+		}
+		m.local = fr.localAllocs
+	} else {
+		m.local = u.localAllocs(nodes...)
+	}
 	isLocal := func(e ast.Expr) bool {
 		id, ok := ast.Unparen(e).(*ast.Ident)
 		return ok && m.local[info.ObjectOf(id)]
@@ -797,8 +816,17 @@ func (u *Unit) havocMods2(st *State, m *modSet, loopFrame bool) {
 			continue
 		}
 		if _, ok := st.vars[obj]; ok {
-			st.vars[obj] = u.freshValue(st, obj.Name(), obj.Type())
+			nv := u.freshValue(st, obj.Name(), obj.Type())
+			st.vars[obj] = nv
+			if m.local[obj] && nv.isSlice() {
+				// only ever assigned make/new/literals/append-to-itself in this function
+				st.assume(Or(Eq(nv.base(), IntLit(0)), Gt(nv.base(), u.clk0())))
+				st.assume(Imp(Eq(nv.base(), IntLit(0)), Eq(nv.scap(), IntLit(0))))
+			}
 		}
+	}
+	if len(m.local) > 0 {
+		entryClock = u.clk0()
 	}
 	if m.all || len(m.keys) > 0 || len(m.allocKeys) > 0 {
 		var partial func(string) bool
